@@ -11,10 +11,10 @@ RULE = ('virtual clock; every real main_loop iteration is watched by: retransmis
         'monitor (nothing waits longer than 45 s), SAD monitor (a removed IKE_SA takes its kernel SAs with it), DPD monitor (probe not '
         'earlier than dpd after the last authentic message, not later than 2 ticks after). Workloads: (1) every request kind on both roles '
         'x EVERY subset of lost transmissions x tick sequences {0.25, 1, 3, irregular}; (2) the same after COOKIE and INVALID_KE_PAYLOAD '
-        'retries (IKE_SA_INIT, CREATE_CHILD_SA, IKE rekey); (3) a partition injected after EVERY micro-step of scripted histories of every '
+        'retries (IKE_SA_INIT, CREATE_CHILD_SA, IKE rekey), also when 1-2 copies of the original request had been lost and retransmitted before the COOKIE / INVALID_KE_PAYLOAD answer; (3) a partition injected after EVERY micro-step of scripted histories of every '
         'exchange kind (half of the runs with background noise: every later iteration is woken by a datagram for an unknown SPI or an unhandled kernel message), then both sides must have emptied their SAD by T + dpd + 20 s + 3 ticks; (4) idle pairs run to 2x lifetime with dpd in '
         '{5, 60} and lifetime in {20, 100}: rekey starts within [lifetime, lifetime+5 s+slack]; (5) a peer that answers every rekey with TEMPORARY_FAILURE '
-        '(responses built by the harness with the real keys): DELETE(IKE) within 2 ticks of scheduled rekey time + 30 s; (6) two IKE_SAs with the same peer (simultaneous initiation) rekey one after the other with their first transmissions lost; (7) one-way partitions: everything one side sends is lost while the peer\'s own request, its retransmissions and late copies of old responses keep arriving; the unanswerable request obeys the same retransmission rules and the IKE_SA with its kernel SAs is gone within the budget. distinct = run descriptors.')
+        '(responses built by the harness with the real keys): DELETE(IKE) within 2 ticks of scheduled rekey time + 30 s; (6) two IKE_SAs with the same peer (simultaneous initiation) rekey one after the other with their first transmissions lost; (7) one-way partitions: everything one side sends is lost while the peer\'s own request, its retransmissions and late copies of old responses keep arriving; the unanswerable request obeys the same retransmission rules and the IKE_SA with its kernel SAs is gone within the budget; (8) the peer restarts without state and sets up a new IKE_SA from the same address that hears authentic traffic more often than the DPD interval: the OLD IKE_SA is still probed and removed with its kernel SAs within dpd + budget, the new one survives. distinct = run descriptors.')
 ASSUMPTIONS = ['virtual time only; a tick is one loop iteration on each endpoint after advancing the clock',
                'the scheduled deadline is read from the IKE_SA between iterations; emission-time rules need only the wire']
 SHARDS = {'quick': 8, 'thorough': 16}
@@ -52,7 +52,7 @@ def start_request(sc, x, kind):
         sc.trigger(x, kind)
 
 
-def run_lost(ck, mons, seed, x, kind, lost, tname, conf=None, retry=None):
+def run_lost(ck, mons, seed, x, kind, lost, tname, conf=None, retry=None, pre_lost=0):
     rng = ck.rng('lost', seed, x, kind, tuple(lost), tname)
     hs = kind not in ('initial', 'auth')
     sc = walk.Scenario(seed, mons, conf, handshake=hs)
@@ -67,6 +67,14 @@ def run_lost(ck, mons, seed, x, kind, lost, tname, conf=None, retry=None):
     start_request(sc, x, kind)
     me = str(sc.ep(x).addrs[0])
     if retry:
+        # (the first `pre_lost` copies of the ORIGINAL request are lost as well: the request has already been retransmitted when the COOKIE / INVALID_KE_PAYLOAD answer comes)
+        for _ in range(pre_lost):
+            sim.net.clear()
+            for _t in range(60):
+                sc.tick(sim.tick_dt or 1.0)         # the run's own tick period (the monitor judges emission times against it)
+                if sim.net:
+                    break
+        sim.case['pre_lost'] = pre_lost
         # let the first request through, and the error notification back: the retry request is what we lose now
         sc.deliver(0)
         sc.deliver(0)
@@ -96,7 +104,7 @@ def run_lost(ck, mons, seed, x, kind, lost, tname, conf=None, retry=None):
         sc.tick(next(seq))
     ck.count('lost.runs')
     ck.count('lost.all_lost' if not delivered_any else 'lost.some_delivered')
-    ck.nontrivial(('lost', x, kind, tuple(sorted(lost)), tname, retry))
+    ck.nontrivial(('lost', x, kind, tuple(sorted(lost)), tname, retry, pre_lost))
     waiting = [s.state.name for s in sc.ep(x).ctl.ike_sas if s.state.name.endswith('_REQ_SENT')]
     if waiting:
         ck.violation(f'still-waiting-45s-after-the-request:{waiting[0]}:{"all-lost" if not delivered_any else "delivered"}', {'trace': sim.trace[-8:]}, sim.case)
@@ -148,6 +156,52 @@ def run_oneway(ck, mons, seed, x, kind, ykind, dt, dups):
                      {'states': left, 'sad': len(sc.ep(x).kernel.sad), 'seconds': sim.clock.t - T, 'budget': budget, 'trace': sim.trace[-6:]}, sim.case)
     else:
         ck.count('oneway.gone_in_time')
+
+
+def run_peer_restart(ck, mons, seed, dpd, dt, chatty):
+    """(8) the peer crashes, comes back with NO state and sets up a NEW IKE_SA from the same address while the old one is still established here; the new
+    IKE_SA hears something authentic more often than the DPD interval. The OLD IKE_SA must still be probed, given up and its kernel SAs removed in time."""
+    sc = walk.Scenario(seed, mons, dict(dpd=dpd, lifetime=3600), handshake=True)
+    sim = sc.sim
+    sim.tick_dt = dt
+    sim.case.update({'family': 'peer-restart', 'dpd': dpd, 'tick': dt, 'new_ike_sa_chatty': chatty})
+    if not sc.ok:
+        return
+    old = sc.a.ctl.ike_sas[0]
+    old_keys = set(sc.a.kernel.sad)
+    sc.tick(dt)
+    T = sim.clock.t
+    sc.b.restart()
+    sim.acquire(sc.b, 0, sport=7100)
+    sim.drain()
+    if len(sc.a.ctl.ike_sas) != 2:
+        ck.count('restart.second_ike_sa_not_created')
+        return
+    bound = dpd + monitors.retransmission_budget() + 3 * dt
+    last_probe = sim.clock.t
+    t_gone = None
+    while sim.clock.t < T + bound + 2 * dt:
+        sc.tick(dt)
+        if chatty and sim.clock.t - last_probe >= max(dt, dpd / 3.0):
+            last_probe = sim.clock.t
+            est = [x for x in sc.b.ctl.ike_sas if x.state.name == 'ESTABLISHED']
+            if est:
+                sc.trigger('B', 'dpd')
+        sim.drain()
+        if t_gone is None and old not in sc.a.ctl.ike_sas and not (old_keys & set(sc.a.kernel.sad)):
+            t_gone = sim.clock.t - T
+    ck.count('restart.runs')
+    ck.nontrivial(('peer-restart', dpd, dt, chatty))
+    if old in sc.a.ctl.ike_sas or (old_keys & set(sc.a.kernel.sad)):
+        ck.violation('ike-sa-of-a-peer-that-lost-its-state-survives-beyond-dpd-plus-retransmission-budget',
+                     {'state': old.state.name, 'old_kernel_sas_left': len(old_keys & set(sc.a.kernel.sad)), 'bound_s': bound, 'table': [x.state.name for x in sc.a.ctl.ike_sas],
+                      'trace': sim.trace[-6:]}, sim.case)
+    else:
+        ck.count('restart.old_ike_sa_gone_in_time')
+        ck.seen('restart.cleanup_seconds', int(t_gone or 0))
+    new = [x for x in sc.a.ctl.ike_sas if x is not old]
+    if chatty and not any(x.state.name == 'ESTABLISHED' and x.child_sas for x in new):
+        ck.violation('new-ike-sa-of-the-restarted-peer-lost-while-the-old-one-was-cleaned-up', {'table': [x.state.name for x in sc.a.ctl.ike_sas]}, sim.case)
 
 
 def history_steps(sc, script):
@@ -414,6 +468,10 @@ def run(ck):
                     continue
                 run_lost(ck, mk(), base + n, x, kind, lost, tname, conf=conf, retry=retry)
                 ck.count(f'retry.runs.{retry}.{kind}')
+                if len(lost) in (1, 2):
+                    for pre in (1, 2):
+                        run_lost(ck, mk(), base + n + 7000 * pre, x, kind, lost, tname, conf=conf, retry=retry, pre_lost=pre)
+                        ck.count('retry.runs_after_the_original_had_been_retransmitted')
     # (3) partition after every micro-step
     for name in HISTORIES:
         dry = walk.Scenario(base + 1, [], dict(dpd=600, lifetime=3600), handshake=name != 'initial+child')
@@ -449,6 +507,13 @@ def run(ck):
                     n += 1
                     if ck.mine(n):
                         run_oneway(ck, mk(), base + n, x, kind, ykind, dt, dups)
+    # (8) the peer restarts and comes back with a new IKE_SA
+    for dpd, dt in ((6, 1.0), (14, 0.5), (20, 2.0)) if not thorough else ((6, 1.0), (14, 0.5), (20, 2.0), (9, 0.25), (30, 1.0), (60, 2.5)):
+        for chatty in (True, False):
+            n += 1
+            if ck.mine(n):
+                # (no table monitor: the harness itself replaces B's controller, which that monitor would read as IKE_SAs vanishing)
+                run_peer_restart(ck, [m_ for m_ in mk() if not isinstance(m_, monitors.TableMonitor)], base + n, dpd, dt, chatty)
     # (5) TEMPORARY_FAILURE for ever
     for dt in (0.5, 1.0, 2.0) if not thorough else (0.25, 0.5, 1.0, 2.0, 3.0):
         n += 1
@@ -463,7 +528,9 @@ def verdict(ck):
     ck.floor('retransmissions observed', sum(v for k, v in c.items() if k.startswith('tm.retransmission.')), 1000)
     ck.floor('give-ups after the budget', c['tm.gave_up'], 50)
     ck.floor('request-outstanding states seen giving up', len(ck.sets['tm.gave_up_states']), 8)
+    ck.floor('retry runs in which the original request had already been retransmitted', c['retry.runs_after_the_original_had_been_retransmitted'], 40)
     ck.floor('retry runs', sum(v for k, v in c.items() if k.startswith('retry.runs.')), 40)
+    ck.floor('peer-restart runs in which the old IKE_SA was gone in time', c['restart.old_ike_sa_gone_in_time'], 5)
     ck.floor('one-way partition runs', c['oneway.runs'], 40)
     ck.floor('one-way partition runs that ended within the budget', c['oneway.gone_in_time'], 40)
     ck.floor('partition points', c['partition.runs'], 100)
